@@ -146,7 +146,7 @@ def slim(case):
 
 def run(ctx):
     ctx.rule = ('valid documents from tools/loader_gen.py (2-7 components, encapsulation depth <= 3, values routed over 1-4 '
-                'hops, unit changes, ODEs, cmeta ids, shuffled element order); 31 fault classes injected at every '
+                'hops, unit changes, ODEs, cmeta ids, shuffled element order); 32 fault classes injected at every '
                 'applicable site singly (quick: at most 10 identifier / number-unit sites per document), one random site '
                 'pair for every two classes (thorough); 9 schema-invalid variants (implementation only); the 9x9x4 '
                 'two-component interface documents in both orientations (quick: 60 of 324); non-trivial = carries a fault')
